@@ -29,6 +29,7 @@ pub fn spec(tier: Tier) -> RelSpec {
         exh_size: (2, 1),
         decides: vec![Kind::Order, Kind::Rows, Kind::EngineReject],
         keyfn,
+        extra: None,
     }
 }
 
